@@ -339,6 +339,7 @@ func runC12(c *Ctx, r *Rec) {
 		}
 		r.check(bad == "", "D4-rune-columns", "cdcn."+st.scanner.Obj().Name()+"/positions", c.pos(st.scanner.Obj().Pos()), "cursor, line and column are advanced by rune counts only", bad)
 		checkLocationBeforeUpdate(c, r, "D4-token-located-where-it-starts", info, st.scanner)
+		checkTokenTextNotEdited(c, r, "D4-token-text-not-edited", info, st.scanner)
 		checkReceiverWrites(c, r, "D4-receiver-writes-persist", st.scanner)
 		checkReceiverWrites(c, r, "D4-receiver-writes-persist", parser)
 	}
@@ -1189,4 +1190,94 @@ func checkLocationBeforeUpdate(c *Ctx, r *Rec, rule string, info *types.Info, sc
 		})
 	}
 	r.check(bad == "", rule, construct, c.pos(emit.Pos()), fmt.Sprintf("%d updates of the location fields, none of them on a path to the emission of a token in the same method", n), bad)
+}
+
+// checkTokenTextNotEdited: the value of a token is the text that was matched (the parser unquotes
+// and converts exactly that text).  Giving a whole value another name (an end-of-line token is
+// shown as "<EOL>") is a comparison of the whole value; a function that edits *inside* the text
+// (strings.Replace/ReplaceAll/Map, a strings.Replacer, case mapping, trimming) also changes the
+// raw characters inside rune and string literals.
+func checkTokenTextNotEdited(c *Ctx, r *Rec, rule string, info *types.Info, scanner *types.Named) {
+	ms := c.methodsOf(scanner)
+	editors := map[string]bool{"Replace": true, "ReplaceAll": true, "Map": true, "ToUpper": true, "ToLower": true, "ToTitle": true,
+		"Trim": true, "TrimSpace": true, "TrimLeft": true, "TrimRight": true, "TrimFunc": true, "ToValidUTF8": true}
+	var isEditor func(fd *ast.FuncDecl, e ast.Expr, depth int) string
+	isEditor = func(fd *ast.FuncDecl, e ast.Expr, depth int) string {
+		call, ok := ast.Unparen(e).(*ast.CallExpr)
+		if !ok || depth > 2 {
+			return ""
+		}
+		finfo := c.infoFor(fd)
+		if finfo == nil {
+			return ""
+		}
+		fn := calleeOf(finfo, call)
+		if fn == nil {
+			return ""
+		}
+		if fn.Pkg() != nil && fn.Pkg().Path() == "strings" && editors[fn.Name()] {
+			return "strings." + fn.Name()
+		}
+		if rn := recvNamed(fn); rn != nil && rn.Obj().Pkg() != nil && rn.Obj().Pkg().Path() == "strings" && rn.Obj().Name() == "Replacer" {
+			return "strings.Replacer." + fn.Name()
+		}
+		if d := c.declOf(fn); d != nil && d.Body != nil && c.infoFor(d) != nil {
+			w := ""
+			inspectNoLit(d.Body, func(x ast.Node) bool {
+				if rs, ok := x.(*ast.ReturnStmt); ok && len(rs.Results) == 1 && w == "" {
+					w = isEditor(d, rs.Results[0], depth+1)
+				}
+				return true
+			})
+			return w
+		}
+		return ""
+	}
+	n := 0
+	for _, name := range sortedKeys(ms) {
+		fd := ms[name]
+		if fd.Body == nil {
+			continue
+		}
+		ast.Inspect(fd.Body, func(x ast.Node) bool {
+			rx, mname, call, ok := methodCall(x)
+			if !ok || mname != "Make" || len(call.Args) < 3 {
+				return true
+			}
+			if tn := derefNamed(info.TypeOf(rx)); tn == nil || !strings.HasPrefix(tn.Obj().Name(), "Token") {
+				return true
+			}
+			for _, a := range call.Args {
+				bt, ok := info.TypeOf(a).Underlying().(*types.Basic)
+				if !ok || bt.Kind() != types.String {
+					continue
+				}
+				n++
+				bad := isEditor(fd, a, 0)
+				if id, ok := ast.Unparen(a).(*ast.Ident); ok && bad == "" {
+					obj := info.Uses[id]
+					ast.Inspect(fd.Body, func(y ast.Node) bool {
+						lhs, rhs, ok := multiDef(y)
+						if as, isAs := y.(*ast.AssignStmt); isAs && len(as.Lhs) == 1 && len(as.Rhs) == 1 {
+							lhs, rhs, ok = as.Lhs, as.Rhs[0], true
+						}
+						if ok && len(lhs) == 1 && identObj(info, lhs[0]) == obj && bad == "" {
+							bad = isEditor(fd, rhs, 0)
+						}
+						return true
+					})
+				}
+				construct := c.fdName(fd) + "/token-value"
+				if bad != "" {
+					r.fail(rule, construct, c.pos(call.Pos()), fmt.Sprintf("the value of the token made here has passed through %s, which edits inside the text: raw characters inside a rune or string literal are changed before the parser sees the literal, so the literal no longer stands for the value that was written", bad))
+				} else {
+					r.ok(rule, construct, c.pos(call.Pos()), "the token's value is the matched text (or a name for the whole value), not an edited copy")
+				}
+			}
+			return true
+		})
+	}
+	if n == 0 {
+		r.skip(rule, "cdcn."+scanner.Obj().Name()+"/token-value", "", "no scanner method makes a token with a text value")
+	}
 }
